@@ -124,6 +124,10 @@ def convert(prefix, marker_prog="vmk"):
             elif name in FD_SOURCES:
                 raise ToolError("strace: descriptor source %s not modelled" % name)
             elif name in ("clone", "clone3", "fork", "vfork"):
+                if "CLONE_FILES" in args or "CLONE_THREAD" in args:
+                    # a thread shares its creator's descriptor table and its calls have no order relative to the
+                    # creator's in per-process trace files: never guessed
+                    raise ToolError("strace: thread creation (%s) is not modelled" % args[:120])
                 c = ret
                 if is_root and first_exec_prog(c) == marker_prog:
                     recs.append({"e": "marker", "p": p})
